@@ -56,7 +56,7 @@ def one_history(args):
                 rec["det_src"] = {d["src"]: dumped["packages"][pk]["steps"]["checkout"]["deterministic"]
                                   for pk, d in ws.items() if "src" in d and pk in dumped["packages"]}
             if rc == 0 and "packages" in dumped:
-                mp = bc.model_project(dumped, ws, paths, digs)
+                mp = bc.model_project(dumped, ws, paths, digs, desc)
                 if mp is not None:
                     projects.append(mp)
                     exp = {}
